@@ -334,6 +334,17 @@ impl World {
                 let f = self.file(&a["f"])?;
                 Box::new(move || Out::Unit(p.remove_from_file(&f)))
             }
+            "InsertText" => {
+                let p = self.el(&a["p"])?;
+                let txt = a["name"].as_str()?.to_string();
+                let pos = if pos < 0 { usize::MAX } else { pos as usize };
+                Box::new(move || Out::Unit(p.insert_character_content_item(&txt, pos)))
+            }
+            "RemoveTextItem" => {
+                let p = self.el(&a["p"])?;
+                let pos = if pos < 0 { usize::MAX } else { pos as usize };
+                Box::new(move || Out::Unit(p.remove_character_content_item(pos)))
+            }
             "Sort" => {
                 let p = self.el(&a["p"])?;
                 Box::new(move || {
@@ -564,6 +575,8 @@ impl World {
                 let o = fo.as_object_mut().unwrap();
                 o.insert("dfs".into(), self.dfs_json(f.elements_dfs()));
                 o.insert("dfs1".into(), self.dfs_json(f.elements_dfs_with_max_depth(1)));
+                o.insert("dfs2".into(), self.dfs_json(f.elements_dfs_with_max_depth(2)));
+                o.insert("dfs3".into(), self.dfs_json(f.elements_dfs_with_max_depth(3)));
                 if self.want_ser {
                     o.insert("ser".into(), self.ser_json(&f));
                 }
